@@ -363,6 +363,13 @@ pub fn catalogue() -> Vec<Scenario> {
             cfg,
             vec![reg0.clone(), add(0, 0, 0), mine(vec![d0]), Op::Poll, mine(vec![]), Op::Poll, Op::Reorg { depth: 1, extra: 1, first: vec![], later_at: 0, later: vec![], evict: false }],
         ),
+        // a stored, untriggered appointment accepted at the very height that is then reorged away: a request served between
+        // the disconnection and the connection of the replacement sees the tower one block lower than when it was stored
+        (
+            "reorg-under-a-stored-appointment",
+            cfg,
+            vec![reg0.clone(), add(0, 1, 3), Op::Reorg { depth: 1, extra: 1, first: vec![], later_at: 0, later: vec![], evict: false }],
+        ),
         ("plain-block", cfg, vec![reg0.clone(), add(0, 0, 0), mine(vec![])]),
     ];
     let api_ops: Vec<Op> = vec![reg0.clone(), reg1.clone(), add(0, 1, 0), add(0, 0, 3), add(0, 0, 0), get0.clone(), sub0.clone()];
